@@ -173,7 +173,6 @@ macro_rules! impl_observer_methods {
       if let Some(observers) = self.observers.rc_deref_mut().take() {
         observers
           .into_iter()
-          .filter(|o| !o.p_is_closed())
           .for_each(|o| o.p_error(err$(.$err_clone())?));
       }
     }
@@ -183,7 +182,6 @@ macro_rules! impl_observer_methods {
       if let Some(observers) = self.observers.rc_deref_mut().take() {
         observers
           .into_iter()
-          .filter(|o| !o.p_is_closed())
           .for_each(|subscriber| subscriber.p_complete());
       }
     }
